@@ -22,7 +22,7 @@ def c02_jobs(tier):
 
 
 HOOK_COMMITS = ["9929591", "7ba38e4", "8db2741"]
-MODEL_PROPERTIES = ["C02"]
+MODEL_PROPERTIES = ["C02", "C09", "C10", "C11", "C12"]
 NOT_CLAIMED = {}
 
 CHECKS = {
@@ -38,5 +38,82 @@ CHECKS = {
                 "a case is non-trivial when all eight programs ran and digest, 8 program buffers and 8 register files were compared with the reference model; distinct by hash of the triple",
         "assumptions": MODEL_ASSUMPTIONS,
         "floors": ["cache_bytes_compared", "dataset_items_compared", "programs_compared", "regfiles_compared", "digests_compared_model", "v1_hashes", "v2_hashes"],
+    },
+    "C09": {
+        "level": "exploration",
+        "technique": "invariant monitor over generated programs + second generator (reference model) + differential execution interpreter vs native code",
+        "jobs": lambda tier: [
+            {"variant": "opt", "sub": "c09", "shards": 16, "cases": T(tier, 200, 20000), "args": {"inputs": T(tier, 64, 64)}, "timeout": T(tier, 1200, 7200)},
+            {"variant": "asan", "sub": "c09", "shards": T(tier, 4, 16), "cases": T(tier, 40, 1000), "args": {"inputs": 16}, "timeout": T(tier, 1200, 7200)},
+        ],
+        "rule": "one case = one key (every length 0..70 first, then random / low-entropy keys up to 300 bytes): the real generator produces its 8 programs twice (determinism), every instruction is checked against the "
+                "rules of Table 6.1.1, the address register is recomputed from the instruction list, the 8 programs are compared with the model generator, and the code emitted by the real x86 JIT is executed natively "
+                "through a trampoline on 64 register inputs (random, single-bit, all-ones, sign extremes) and compared with executeSuperscalar; non-trivial = all of these ran; distinct by hash of the key",
+        "assumptions": MODEL_ASSUMPTIONS + ["ties for the longest dependency chain resolve to the lowest register index (specs.md is silent on ties)"],
+        "level_text": "For every explored key the real generator's 8 programs are monitored for the well-formedness rules of chapter 6, compared instruction by instruction with a second implementation of the generator, "
+                      "and executed both by the library's interpreter and as native code emitted by the library's JIT on many register inputs. Keys are sampled (all lengths 0..70 plus random), register inputs are sampled: exploration is what a runtime monitor can give for a forall over keys and 2^512 inputs.",
+        "level_note": "The model generator follows the byte-consumption order of the pinned tree (chapter 6 leaves it open), so it detects any later change and any rule violation but is not a clean-room reading of chapter 6. Rare generator paths 'abort decode buffer' and 'port mapping failure' do not occur in practice and are reported, not required.",
+    },
+    "C10": {
+        "level": "exploration",
+        "technique": "reference-model monitor (Argon2d fill) + differential across ref/SSSE3/AVX2 + ASan on reduced instances",
+        "jobs": lambda tier: [
+            {"variant": "opt", "sub": "c10", "shards": 16, "args": {"fullkeys": T(tier, 1, 3)}, "timeout": T(tier, 1200, 7200)},
+            {"variant": "asan", "sub": "c10", "shards": 8, "args": {"fullkeys": 0}, "timeout": T(tier, 1200, 7200)},
+        ],
+        "parallel": 12,
+        "rule": "full-size cases: one key per shard (lengths 32,0,1,8,55,56,60,63,64,65,71,72,73,127,128,129,200,500,... then random): the 256 MiB produced by each available Argon2 implementation is compared byte for byte with the model's "
+                "Argon2d fill and with each other, followed by a re-initialisation chain A->B->B->A on one cache object; reduced cases: (m blocks, t passes, password, salt) driven through randomx_argon2_initialize + fill_memory_blocks with each implementation; distinct by hash of the parameters",
+        "assumptions": ["reference model Argon2d (written from the Argon2 specification; no independent KAT for lanes=1 without finaliser is available offline, so its agreement with three separately coded implementations is the cross-check)", "model Blake2b pinned to hashlib at setup"],
+        "level_text": "Every byte of the cache is compared with an independent Argon2d fill for each explored key and each implementation the CPU supports, and reduced instances exercise the block arithmetic at the edges of small buffers under ASan. Keys and (m,t) are sampled: exploration.",
+        "level_note": "Trusted base: the model's Argon2d. Only implementations reported by randomx_get_flags() on this CPU are run (ref, SSSE3, AVX2 here).",
+    },
+    "C11": {
+        "level": "exploration",
+        "technique": "reference-model monitor (RFC 7693 model pinned to hashlib) + canaries + ASan/UBSan",
+        "jobs": lambda tier: [
+            {"variant": "opt", "sub": "c11", "shards": 16, "timeout": T(tier, 1200, 7200)},
+            {"variant": "asan", "sub": "c11", "shards": 8, "args": {"huge": 0, "commitments": 20000}, "timeout": T(tier, 1200, 7200), "env": {"VERIF_ASAN_LIGHT": "1"}},
+        ],
+        "rule": "cases are (message, outlen, key, chunking): message lengths 0..1100 exhaustively and every multiple of 128 +-1 up to 64 KiB, all (outlen 1..64, keylen 0..64) pairs, six chunking modes (1-byte, 128-byte, 127..129, random with empty updates, 64-byte, random); "
+                "both the one-shot and the streaming interface are compared with the model; invalid-parameter calls must fail and leave the canaried output untouched; commitments are compared with Blake2b-256(input||hash); thorough adds a 4 GiB+257 byte message; distinct by hash of the case description",
+        "assumptions": ["model Blake2b (RFC 7693) cross-checked against CPython hashlib.blake2b on 20000 triples at setup", "the 2^64 byte-counter carry is unreachable and not claimed"],
+        "level_text": "Digest equality with an independent RFC 7693 implementation over exhaustive small lengths, all parameter pairs and many chunkings, return codes and output canaries for invalid calls, under plain and ASan/UBSan builds. Messages are sampled beyond 1100 bytes: exploration.",
+        "level_note": "Trusted base: model Blake2b + hashlib. The > 4 GiB clause is exercised only in the thorough tier (one message, single update and chunked).",
+    },
+    "C12": {
+        "level": "exploration",
+        "technique": "reference-model monitor (FIPS-197 rounds, specs.md ch.3 generators) + soft/hard differential + ASan",
+        "jobs": lambda tier: [
+            {"variant": "opt", "sub": "c12", "shards": 16, "timeout": T(tier, 1200, 7200)},
+            {"variant": "asan", "sub": "c12", "shards": 8, "args": {"rounds": 400000}, "timeout": T(tier, 1200, 7200)},
+        ],
+        "rule": "round cases: every byte position x every byte value (rest zero, rest random) plus random (state,key) pairs, each through soft_aesenc/soft_aesdec, the hardware path and the FIPS-197 model; function cases: sizes 64*n (n=1..64), 4032/4096/4160/8192/12288/64Ki/256Ki/2Mi with "
+                "zero/ones/counter/random contents: fillAes1Rx4, fillAes4Rx4, hashAes1Rx4 in both template instantiations vs the model, and hashAndFillAes1Rx4 vs (hash, fill); distinct by hash of (size, content kind, seed)",
+        "assumptions": ["model AES rounds computed from the GF(2^8) definition, checked against FIPS-197 C.1 and against the aesenc/aesdec instructions at setup"],
+        "level_text": "Bit-exact comparison of both AES paths with a FIPS-197 model on all single-byte-position inputs (touching all 2048 table entries) and millions of random pairs, and of the four chapter-3 functions on all small sizes and the real 2 MiB size. Random sampling beyond that: exploration.",
+        "level_note": "For hashAndFill sizes below 4096 the function forms (never dereferences) a pointer before the buffer; only results are judged there.",
+    },
+    "C13": {
+        "level": "exploration",
+        "technique": "differential monitor over entry MXCSR states + stmxcsr read-back around the call",
+        "jobs": lambda tier: [{"variant": "opt", "sub": "c13", "shards": 16, "timeout": T(tier, 1800, 7200)}],
+        "rule": "a case is (entry MXCSR state, VM flag set, version, input): 128 states (4 rounding modes x FTZ x DAZ x {all masked, none masked, inexact unmasked, invalid unmasked} x sticky flags {0,0x3f}) x {interpreter, JIT, secure JIT} x {soft, hard AES} (x fast mode in thorough) x v1/v2; "
+                "inputs are chosen by a pre-scan so that their last program ends in each of the four rounding modes; digest must equal the digest under 0x1F80 and MXCSR after the single-call hash must equal the entry value (all 16 bits); batches: digests only; distinct by hash of the case",
+        "assumptions": ["the x87 control word is not judged (the property speaks of the SSE control/status word on this platform)"],
+        "level_text": "Every listed MXCSR state is tried against every light-mode VM class (and fast mode in the thorough tier) with ldmxcsr/stmxcsr placed immediately around the call. Inputs are sampled: exploration.",
+        "level_note": "Unmasked-exception states are included; the library resets MXCSR before its first FP instruction, so no trap is expected and a SIGFPE would be reported as a violation.",
+    },
+    "C18": {
+        "level": "exploration",
+        "technique": "exhaustive execution of both reciprocal routines over all 2^32 divisors against a 128-bit oracle + structural/behavioural no-op monitor",
+        "exhaustive": True,
+        "jobs": lambda tier: [{"variant": "opt", "sub": "c18", "shards": 32, "timeout": T(tier, 1800, 7200)}],
+        "rule": "clause 1: every divisor in [1,2^32) that is not a power of two is passed to randomx_reciprocal and randomx_reciprocal_fast and compared with floor(2^(63+bitlen)/d) computed in 128-bit arithmetic (complete enumeration, both tiers); "
+                "clause 2: all 33 no-op divisors x 8 destination registers x v1/v2: decoded type NOP, last-writer table unchanged, a following CBRANCH still targets the earlier writer (interpreter bytecode and JIT jump displacement), JIT emits zero bytes, and 256 (thorough: 2048) iterations "
+                "behave exactly like the same program with ISWAP_R r,r in that slot in both engines; distinct_nontrivial counts the no-op cases plus the shard boundary markers (the 2^32 divisors are counted in evaluations)",
+        "assumptions": ["the oracle uses the compiler's unsigned __int128 division"],
+        "level_text": "The first clause is decided by complete enumeration (4 294 967 263 divisors, both routines). The no-op clause enumerates all 33 divisors x 8 registers x 2 versions structurally and behaviourally.",
+        "level_note": "exhaustive: true refers to the divisor enumeration; the behavioural no-op runs sample scratchpad contents.",
     },
 }
